@@ -465,6 +465,98 @@ var c11Advertised = probe.Define("C11", "advertised", func(t *rapid.T) c11AdvIn 
 	return probe.OK(true, "child-proposal")
 })
 
+// Two negotiations in flight: the descriptors obtained for the first one must still describe it after the second one has
+// been decoded (enumerated: every ordered pair of advertised encryption key sizes x every path to a descriptor).
+type c11PairIn struct {
+	First  int    `json:"first_encr"`  // index into the three AES key sizes
+	Second int    `json:"second_encr"` // likewise
+	Path   string `json:"path"`        // decode | decode-child | ike-proposal | child-proposal
+	Wire   bool   `json:"via_wire"`
+}
+
+func c11Descriptor(i int, path string, wire bool) (func() (uint16, int), error) {
+	bits := uint16(ref.Encrs[i].KeyLen * 8)
+	tr := &message.Transform{TransformType: 1, TransformID: 12, AttributePresent: true, AttributeFormat: message.AttributeFormatUseTV, AttributeType: 14, AttributeValue: bits}
+	var err error
+	if wire {
+		if tr, err = wireTransform(tr); err != nil {
+			return nil, fmt.Errorf("HARNESS/wire: %v", err)
+		}
+	}
+	switch path {
+	case "decode":
+		d := encr.DecodeTransform(tr)
+		if d == nil {
+			return nil, fmt.Errorf("encr.DecodeTransform: AES-CBC-%d reported unsupported", bits)
+		}
+		return func() (uint16, int) { return d.TransformID(), d.GetKeyLength() }, nil
+	case "decode-child":
+		d := encr.DecodeTransformChildSA(tr)
+		if d == nil {
+			return nil, fmt.Errorf("encr.DecodeTransformChildSA: AES-CBC-%d reported unsupported", bits)
+		}
+		return func() (uint16, int) { return d.TransformID(), d.GetKeyLength() }, nil
+	case "ike-proposal":
+		sa := newInfoSA(bridge.SuiteSel{Encr: i, Integ: i % 3, Prf: (i + 1) % 3, DH: 0})
+		prop, err := sa.ToProposal()
+		if err != nil {
+			return nil, fmt.Errorf("ToProposal: %v", err)
+		}
+		if wire {
+			if prop, err = wireProposal(prop); err != nil {
+				return nil, fmt.Errorf("HARNESS/wire: %v", err)
+			}
+		}
+		peer := ref.LeftPad(ref.ModExp(bigTwo, bigTwo, refPrime(0)), ref.DHs[0].Bits/8)
+		got, _, err := security.NewIKESAKey(prop, peer, []byte("nonces"), 1, 2)
+		if err != nil || got == nil || got.EncrInfo == nil {
+			return nil, fmt.Errorf("NewIKESAKey: %v", err)
+		}
+		return func() (uint16, int) { return got.EncrInfo.TransformID(), got.EncrInfo.GetKeyLength() }, nil
+	default:
+		c := &security.ChildSAKey{EncrKInfo: encr.StrToKType(ref.Encrs[i].Name), IntegKInfo: integ.StrToKType(ref.Integs[i%3].Name)}
+		c.EsnInfo, _ = esn.StrToType("ESN_DISABLE")
+		prop, err := c.ToProposal()
+		if err != nil {
+			return nil, fmt.Errorf("ChildSAKey.ToProposal: %v", err)
+		}
+		if wire {
+			if prop, err = wireProposal(prop); err != nil {
+				return nil, fmt.Errorf("HARNESS/wire: %v", err)
+			}
+		}
+		got, err := security.NewChildSAKeyByProposal(prop)
+		if err != nil || got == nil || got.EncrKInfo == nil {
+			return nil, fmt.Errorf("NewChildSAKeyByProposal: %v", err)
+		}
+		return func() (uint16, int) { return got.EncrKInfo.TransformID(), got.EncrKInfo.GetKeyLength() }, nil
+	}
+}
+
+var c11Pairs = probe.Define("C11", "pairs", func(t *rapid.T) c11PairIn { panic("enumerated") }, func(in c11PairIn) probe.Outcome {
+	var first, second func() (uint16, int)
+	if err := probe.Try(func() error {
+		var e error
+		if first, e = c11Descriptor(in.First, in.Path, in.Wire); e != nil {
+			return e
+		}
+		second, e = c11Descriptor(in.Second, in.Path, in.Wire)
+		return e
+	}); err != nil {
+		return probe.Fail("%v", err)
+	}
+	id1, kl1 := first()
+	id2, kl2 := second()
+	if id1 != 12 || kl1 != ref.Encrs[in.First].KeyLen {
+		return probe.Fail("the descriptor obtained for AES-CBC with %d-octet keys reports id %d / %d octets once a second negotiation (%d-octet keys) has been decoded",
+			ref.Encrs[in.First].KeyLen, id1, kl1, ref.Encrs[in.Second].KeyLen)
+	}
+	if id2 != 12 || kl2 != ref.Encrs[in.Second].KeyLen {
+		return probe.Fail("the second descriptor (AES-CBC with %d-octet keys) reports id %d / %d octets", ref.Encrs[in.Second].KeyLen, id2, kl2)
+	}
+	return probe.OK(in.First != in.Second, "pairs:"+in.Path)
+})
+
 // proposals whose first transform of some type is unsupported / ill-attributed must not yield an SA
 type c11BadIn struct {
 	Which string  `json:"which"` // encr | integ | prf | dh | esn
@@ -674,6 +766,20 @@ func TestC11(t *testing.T) {
 		}
 		if c.Failures() == 0 {
 			c.Exhaustive("keylength")
+		}
+	}
+	if c.Shard == 0 {
+		for _, path := range []string{"decode", "decode-child", "ike-proposal", "child-proposal"} {
+			for _, wire := range []bool{false, true} {
+				for a := 0; a < 3; a++ {
+					for b := 0; b < 3; b++ {
+						c11Pairs.Eval(c, c11PairIn{First: a, Second: b, Path: path, Wire: wire})
+					}
+				}
+			}
+		}
+		if c.Failures() == 0 {
+			c.Exhaustive("pairs")
 		}
 	}
 	c11Decode.Run(c, t, c.N(300, 2000))
